@@ -1373,6 +1373,18 @@ def _aliases_acyclic(F, s, e):
     return (not bad and len(tmp.instances) >= 6), ("the loader's cycle rules hold (%d instances)" % len(tmp.instances) if not bad else bad[0]["detail"][:200])
 
 
+def _search_results_resolve(F, s, e):
+    """search() turns the names found in the registry's own tables back into values; that must go through Registry::lookup
+    (or the substances table): Context::lookup answers the reserved names `ans`, `ANS`, `_` with the previous result, so a unit
+    that happens to carry such a name would not resolve and the `expect` would fire."""
+    fn = s.fn
+    names = [t["callee"]["path"] for _, t in fn.calls() if "callee" in t]
+    if any(n.endswith("loader::context::Context::lookup") for n in names):
+        return False, "search resolves registry names through Context::lookup, which shadows `ans`, `ANS` and `_`"
+    ok = any(n.endswith("loader::registry::Registry::lookup") for n in names)
+    return ok, ("registry names are resolved through Registry::lookup" if ok else "no Registry::lookup call found in the search closure")
+
+
 def _symbol_invariant(F, s, e):
     """Every symbol in substance_symbols names a registered substance: the C16 rule, evaluated here as a backing."""
     import core
@@ -1400,6 +1412,7 @@ def _operands_reset_to_one(F, s, e):
 
 
 BACKING = {
+    "search_results_resolve": _search_results_resolve,
     "symbol_invariant": _symbol_invariant,
     "prettified_twin_divided": _prettified_twin_divided,
     "property_values_nonzero": _property_values_nonzero,
